@@ -58,7 +58,7 @@ CLAIMED = {
  "C06": ("guards with exact thresholds by edge-feasibility under both polarities + must-summaries + value flow in Read",
          "Limit armed at construction, lifted only after the callback; budget cut/decrement/exhaustion in Read; SIZE and BDAT totals refused exactly when strictly greater than the limit with 552 and no callback. The DATA boundary at exactly N octets is decided by the budget rules (exhausted budget vs the octet beyond it); the handlers add no size verdict of their own (verdict-source rule); the reader's framing rules are shared so that an over-limit message still ends at its marker.",
          "DESIGN.md §3 C06"),
- "C07": ("automaton table for error/EOF results + guard facts with phi refinement for the clean pipe close + must-summaries for aborts",
+ "C07": ("automaton table for error/EOF results and its equivalence with the RFC 5321 transducer (end state reached by <CRLF>.<CRLF> only) + guard facts with phi refinement for the clean pipe close + must-summaries for aborts",
          "io.EOF only in the end state; read errors become non-EOF errors; clean pipe close only on LAST after a complete chunk (error nil and count == declared size); reset/Close abort an open pipe before calling into the backend; an oversize chunk's 552 ends the transfer; handleConn closes on every exit.",
          "DESIGN.md §3 C07"),
  "C03": ("typestate guards by edge-feasibility on SSA + must/may event summaries + path rules; never-after rules that account for defers registered before the trigger",
